@@ -50,6 +50,7 @@ func (b *FaultBody) limit() int {
 
 func (b *FaultBody) Read(p []byte) (n int, err error) {
 	b.Reads++
+	rt.Tick()
 	defer func() {
 		if b.OnRead != nil {
 			b.OnRead(n, err)
